@@ -56,6 +56,7 @@ CONSTANTS Comp,      \* "hub_pro" | "hub_re" | "pairs" | "multi"
           NBuf,      \* packet buffers per switch (0 = packet-ins carry the whole frame)
           Gaps,      \* durations of Tick
           Strict,    \* TRUE = documented intent, FALSE = as built (named deviations)
+          Busy,      \* TRUE = the DetectBusy action exists (behaviours end with it, see there)
           D          \* export depth
 
 Switches == 1..NS
@@ -91,9 +92,10 @@ VARIABLES at,      \* [Hosts -> <<s,p>>]
           since,   \* multi: seconds since the switches connected, saturating at HoldDown + 1 (flood hold-down)
           moved,   \* hosts that changed their attachment point (history, for the properties)
           seen,    \* [Switches -> [Hosts -> 0..NP]] ideal-bridge learning: port of the latest arrival (history)
+          fuzzy,   \* TRUE after DetectBusy: flow ages are no longer known, the behaviour ends
           last,    \* observation of the last action
           hist     \* all observations (export only)
-svars == <<at, up, adj, tab, mac, flows, bufs, since, moved, seen>>
+svars == <<at, up, adj, tab, mac, flows, bufs, since, moved, seen, fuzzy>>
 vars  == <<svars, last, hist>>
 view  == <<svars, last>>
 viewE == svars
@@ -260,69 +262,103 @@ Init == /\ at = InitAt
         /\ since = IF Comp = "multi" THEN 0 ELSE HoldDown + 1
         /\ moved = {}
         /\ seen = [s \in Switches |-> [h \in Hosts |-> 0]]
+        /\ fuzzy = FALSE
         /\ last = NoObs /\ hist = <<>>
 
 \* host h sends a frame.  (While a cable is up that discovery has not found yet, l2_multi's behaviour depends
 \* on timing inside the probe cycle: those steps are left out.)
 Send(h, dst, sh) ==
+  /\ ~fuzzy
   /\ Comp = "multi" => up \subseteq adj
   /\ LET f  == Frame(h, dst, sh)
          w0 == [flows |-> flows, tab |-> tab, mac |-> mac, bufs |-> bufs, seen |-> seen,
                 hops |-> {}, todo |-> <<at[h]>>]
          w  == Walk(w0, f, MaxHops)
      IN /\ flows' = w.flows /\ tab' = w.tab /\ mac' = w.mac /\ bufs' = w.bufs /\ seen' = w.seen
-        /\ UNCHANGED <<at, up, adj, since, moved>>
+        /\ UNCHANGED <<at, up, adj, since, moved, fuzzy>>
         /\ Log("Send", [h |-> h, dst |-> dst, sh |-> sh],
                [hops |-> Brief(w.hops), tbls |-> Tbls(w.flows), bufs |-> w.bufs,
                 storm |-> IF w.todo = <<>> THEN 0 ELSE 1], w.hops)
 
 Move(h, sp) ==
+  /\ ~fuzzy
   /\ Comp # "multi"
   /\ sp # at[h]
   /\ at' = [at EXCEPT ![h] = sp]
   /\ moved' = moved \cup {h}
-  /\ UNCHANGED <<up, adj, tab, mac, flows, bufs, since, seen>>
+  /\ UNCHANGED <<up, adj, tab, mac, flows, bufs, since, seen, fuzzy>>
   /\ Log("Move", [h |-> h, s |-> sp[1], p |-> sp[2]], [x |-> 0], {})
 
 Older(fl, d) == [fl EXCEPT !.age = Min(@ + d, Cap), !.idle = Min(@ + d, Cap)]
 Expired(fl) == (fl.ito > 0 /\ fl.idle > fl.ito) \/ (fl.hto > 0 /\ fl.age > fl.hto)
 \* d seconds pass without a topology change to notice; the switches expire flows
 Tick(d) ==
+  /\ ~fuzzy
   /\ adj = up
   /\ flows' = [s \in Switches |-> {fl \in {Older(x, d) : x \in flows[s]} : ~Expired(fl)}]
   /\ since' = Min(since + d, HoldDown + 1)
-  /\ UNCHANGED <<at, up, adj, tab, mac, bufs, moved, seen>>
+  /\ UNCHANGED <<at, up, adj, tab, mac, bufs, moved, seen, fuzzy>>
   /\ Log("Tick", [d |-> d], [tbls |-> Tbls(flows'), bufs |-> bufs], {})
 
 Cut(l) ==
+  /\ ~fuzzy
   /\ l \in up \cap Cuts
   /\ up' = up \ {l}
-  /\ UNCHANGED <<at, adj, tab, mac, flows, bufs, since, moved, seen>>
+  /\ UNCHANGED <<at, adj, tab, mac, flows, bufs, since, moved, seen, fuzzy>>
   /\ Log("Cut", [s |-> l[1], p |-> l[2]], [x |-> 0], {})
 Restore(l) ==
+  /\ ~fuzzy
   /\ l \in Cuts \ up
   /\ up' = up \cup {l}
-  /\ UNCHANGED <<at, adj, tab, mac, flows, bufs, since, moved, seen>>
+  /\ UNCHANGED <<at, adj, tab, mac, flows, bufs, since, moved, seen, fuzzy>>
   /\ Log("Restore", [s |-> l[1], p |-> l[2]], [x |-> 0], {})
 
 \* DetectTime seconds pass: discovery times out the cut cables and finds the restored ones; every LinkEvent
 \* makes l2_multi delete all flows on all switches and forget its paths; a link coming up also unlearns the
 \* addresses learned on its two ports
 Detect ==
+  /\ ~fuzzy
   /\ Comp = "multi" /\ adj # up
   /\ adj' = up
   /\ flows' = [s \in Switches |-> {}]
   /\ mac' = [h \in Hosts |-> IF \E l \in up \ adj : mac[h] \in EndsOf(l) THEN None ELSE mac[h]]
   /\ since' = HoldDown + 1
-  /\ UNCHANGED <<at, up, tab, bufs, moved, seen>>
+  /\ UNCHANGED <<at, up, tab, bufs, moved, seen, fuzzy>>
   /\ Log("Detect", [x |-> 0], [tbls |-> Tbls(flows'), adj |-> up, bufs |-> bufs], {})
 
+\* The same DetectTime seconds while hosts h and d keep talking (a frame every 2 s, alternately h -> d with
+\* shape "a" and d -> h with the reverse shape "b"), over a path that the cut cables are not part of.  Their
+\* flows never idle out, so it is the LinkEvent that removes them: exactly then the conversation causes a
+\* packet-in again and the path is installed anew; every frame of the conversation is delivered; all other
+\* flows have idled out at the end.  Discovery may notice the two directions of a dead cable in two different
+\* checks (two LinkEvents, two re-installations), and WHEN in the interval it notices is not fixed: the ages
+\* of the flows are not known afterwards, the behaviour ends here (fuzzy).
+DetectBusy(h, d) ==
+  /\ ~fuzzy /\ Busy /\ Comp = "multi"
+  /\ adj # up /\ up \subseteq adj
+  /\ h # d /\ mac[h] # None /\ mac[d] # None
+  /\ LET rts == Routes(mac[h][1], mac[d][1]) IN
+     /\ rts # {}
+     /\ LET r == CHOOSE x \in rts : TRUE IN
+          \A k \in 1..(Len(r) - 1) : \E l \in up : {l[1], l[3]} = {r[k], r[k + 1]}
+  /\ LET none == [s \in Switches |-> {}]
+         w0 == [flows |-> none, tab |-> tab, mac |-> mac, bufs |-> bufs, seen |-> seen, hops |-> {},
+                todo |-> <<at[h]>>]
+         w1 == Walk(w0, Frame(h, d, "a"), MaxHops)                                  \* re-installation
+         w2 == Walk([w1 EXCEPT !.hops = {}, !.todo = <<at[d]>>], Frame(d, h, "b"), MaxHops)
+     IN /\ flows' = w2.flows /\ mac' = w2.mac /\ bufs' = w2.bufs /\ seen' = w2.seen
+        /\ adj' = up /\ since' = HoldDown + 1 /\ fuzzy' = TRUE
+        /\ UNCHANGED <<at, up, tab, moved>>
+        /\ Log("DetectBusy", [h |-> h, d |-> d],
+               [again |-> 1, lost |-> 0, tbls |-> Tbls(w2.flows), adj |-> up, bufs |-> w2.bufs], {})
+
 SendAny == \E h \in Hosts, dst \in Dsts, sh \in Shapes : Send(h, dst, sh)
+BusyAny == \E h \in Hosts, d \in Hosts : DetectBusy(h, d)
 MoveAny == \E h \in Hosts, sp \in MovePorts : Move(h, sp)
 TickAny == \E d \in Gaps : Tick(d)
 CutAny  == \E l \in Cuts : Cut(l)
 RestoreAny == \E l \in Cuts : Restore(l)
-Next == SendAny \/ MoveAny \/ TickAny \/ CutAny \/ RestoreAny \/ Detect
+Next == SendAny \/ MoveAny \/ TickAny \/ CutAny \/ RestoreAny \/ Detect \/ BusyAny
 Spec == Init /\ [][Next]_vars
 
 \* the same relation split by what happened (names for TLC's coverage report: the vacuity guard)
@@ -344,7 +380,7 @@ TickExpires == TickAny /\ \E s \in Switches : Cardinality(flows'[s]) < Cardinali
 TickKeeps   == TickAny /\ \A s \in Switches : Cardinality(flows'[s]) = Cardinality(flows[s])
 NextC == ViaFlow \/ ViaFlood \/ ViaPair \/ ViaPath \/ ViaLldp \/ ViaUnreach \/ ViaHeld \/ ViaLink \/ ViaLost
          \/ DevFloodUnbuffered \/ DevUnreachLeak \/ DevHolddownFlood \/ SendAny
-         \/ MoveAny \/ TickExpires \/ TickKeeps \/ CutAny \/ RestoreAny \/ Detect
+         \/ MoveAny \/ TickExpires \/ TickKeeps \/ CutAny \/ RestoreAny \/ Detect \/ BusyAny
 
 ----------------------------------------------------------------------------
 (* The properties                                                            *)
@@ -359,7 +395,7 @@ TypeOK ==
   /\ mac \in [Hosts -> {None} \cup (Switches \X Ports)]
   /\ \A s \in Switches : \A fl \in flows[s] : FlowOK(fl)
   /\ bufs \in [Switches -> 0..NBuf]
-  /\ since \in 0..(HoldDown + 1) /\ moved \subseteq Hosts
+  /\ since \in 0..(HoldDown + 1) /\ moved \subseteq Hosts /\ fuzzy \in BOOLEAN
 
 \* a frame never meets two cached flows (the table's tie-breaking is not relied upon)
 Overlap(x, y) == /\ (x.inp = 0 \/ y.inp = 0 \/ x.inp = y.inp) /\ (x.src = 0 \/ y.src = 0 \/ x.src = y.src)
